@@ -25,6 +25,9 @@ fn gen_history(suite: &str, r: &mut Rng) -> Vec<Tree> {
     match suite {
         "r-codec" => rgen::gen_codec(r),
         "r-pair" => {
+            if r.chance(1, 4) {
+                return rgen::gen_slice_stress(r);
+            }
             let steps = r.range(30, 140) as usize;
             rgen::gen_pair(r, &rgen::PairGen { hostile: false, steps })
         }
